@@ -37,7 +37,8 @@ def make_array(rng, dtype, shape):
                         dtype=dtype)
     else:
         raw = bytes(rng.getrandbits(8) for _ in range(n * dtype.itemsize))
-        flat = np.frombuffer(raw, dtype=dtype).copy() if dtype.itemsize else np.zeros(n, dtype)
+        # no .copy(): copying a structured array leaves its padding bytes undefined
+        flat = np.frombuffer(bytearray(raw), dtype=dtype) if dtype.itemsize else np.zeros(n, dtype)
     return flat.reshape(shape)
 
 
